@@ -1140,6 +1140,76 @@ def _homogeneous_geometry(model, rep):
                             f"sort routines")
 
 
+def _tet_capacity(model, rep):
+    """MeshTet1._adaptive writes new cells, points and edges into arrays
+    allocated once with a fixed multiple of the input sizes (8 nt, 9 nv),
+    inside a work-list loop whose length depends on the data: longest-edge
+    bisection has no a-priori bound on the closure, so the slice stores can
+    run past the end (numpy then raises a broadcast error far from the
+    cause).  Every such buffer needs a capacity test or growth in the
+    loop."""
+    R2 = "C13-R2"
+    fn = model.cls("skfem.mesh.mesh_tet_1", "MeshTet1").methods["_adaptive"]
+    loops = [n for n in walk_no_nested(fn.node) if isinstance(n, ast.While)]
+    if len(loops) != 1:
+        raise AnalysisError(f"MeshTet1._adaptive: {len(loops)} while loops")
+    loop = loops[0]
+    bufs = {}
+    for n in walk_no_nested(fn.node):
+        if isinstance(n, ast.Assign) and len(n.targets) == 1 and isinstance(
+                n.targets[0], ast.Name) and isinstance(n.value, ast.Call) \
+                and src(n.value.func) in ("np.zeros", "np.ones", "np.empty") \
+                and n.value.args:
+            shp = n.value.args[0]
+            if any(isinstance(x, ast.BinOp) and isinstance(x.op, ast.Mult)
+                   and isinstance(x.left, ast.Constant)
+                   for x in ast.walk(shp)):
+                bufs[n.targets[0].id] = src(shp)
+    if len(bufs) < 3:
+        raise AnalysisError(f"MeshTet1._adaptive: {len(bufs)} preallocated "
+                            f"work arrays found")
+    grows = {b: False for b in bufs}
+    for n in ast.walk(loop):
+        # growth: buf = np.hstack/concatenate/resize/pad(...buf...) or a
+        # test of its capacity (buf.shape / len(buf) in a comparison)
+        if isinstance(n, ast.Assign) and isinstance(
+                n.targets[0], ast.Name) and n.targets[0].id in bufs and \
+                isinstance(n.value, ast.Call) and src(n.value.func).split(
+                    ".")[-1] in ("hstack", "concatenate", "resize", "pad",
+                                 "append"):
+            grows[n.targets[0].id] = True
+        if isinstance(n, ast.Compare):
+            for b in bufs:
+                if f"{b}.shape" in src(n) or f"len({b})" in src(n):
+                    grows[b] = True
+    written = set()
+    for n in ast.walk(loop):
+        if isinstance(n, ast.Assign) and isinstance(
+                n.targets[0], ast.Subscript) and isinstance(
+                n.targets[0].value, ast.Name) and \
+                n.targets[0].value.id in bufs and any(
+                isinstance(x, ast.Slice) and x.upper is not None
+                for x in ast.walk(n.targets[0].slice)):
+            written.add(n.targets[0].value.id)
+    for b in sorted(written):
+        cons = f"MeshTet1._adaptive:capacity[{b}]"
+        if grows[b]:
+            rep.ok(R2, cons, "capacity tested / array grown inside the "
+                             "work-list loop")
+        else:
+            rep.fail(R2, fn.path, "MeshTet1._adaptive", cons,
+                     f"'{b}' is allocated once with shape {bufs[b]} and "
+                     f"written at growing slices inside the work-list loop "
+                     f"without a capacity test: when the closure needs more "
+                     f"than the fixed multiple (a valid Delaunay mesh of 7 "
+                     f"points, 4 cells: refined([0]) needs 36 cells) numpy "
+                     f"raises 'could not broadcast input array'",
+                     fn.lineno)
+    if len(written) < 3:
+        raise AnalysisError(f"only {len(written)} work arrays written at "
+                            f"slices in the loop")
+
+
 def _entry_points(model, rep):
     """The marked set is an array of cell *indices* (Mesh.refined: 'array of
     element indices'), so cell 0 is a member like any other.  (a) No
@@ -1291,6 +1361,7 @@ def run(model: Model, rep, tier: str) -> None:
              "a provably empty set")
     staged(lambda: _entry_points(model, rep),
            lambda: _homogeneous_geometry(model, rep),
+           lambda: _tet_capacity(model, rep),
            lambda: _subdomain_propagation(model, rep),
            lambda: _templates(model, rep), lambda: _line(model, rep),
            lambda: _sentinel_tables(model, rep),
